@@ -63,7 +63,7 @@ PROPS["C08"] = {
     "assumptions": ["interruption of the first launch of the new release is C04"],
 }
 PROPS["C17"] = {
-    "modules": ["C17"], "required_theorems": ["event_batch_agrees", "C17_holds"], "monitors": ["C17"],
+    "modules": ["C17", "C17Bound"], "required_theorems": ["event_batch_agrees", "C17_holds", "queue_bound", "step_q"], "monitors": ["C17"],
     "fields": ["ret", "net", "sj", "sje", "pj"],
     "campaign": camp([("lifecycle", 500), ("mixed", 300), ("rollback", 200), ("release", 150), ("chaos", 150), ("events", 250), ("lifecycle@http", 200), ("strings@http", 100)],
                      [("lifecycle", 8000), ("mixed", 5000), ("rollback", 3000), ("release", 2000), ("chaos", 2000), ("strings", 2000), ("events", 4000),
@@ -183,12 +183,12 @@ PROPS["C04"] = {
                           "secHandlePriorSaves_apply", "secLaunchStartSaves_apply", "secLaunchSuccessSaves_apply", "secLaunchFailureSaves_apply",
                           "secNextBootPatchSaves_apply", "secClearEventsSaves_apply", "secRollBackSaves_apply", "secInstallSaves_apply",
                           "eio_safe_next_launch", "eio_safe_same_process", "eio_inv", "faultPairs_pred", "resetThen_inv", "resetThen_none",
-                          "opSegs_sec", "reach_step", "crash_safe_reachable", "reachable_selfBan", "step_selfBan"],
+                          "opSegs_sec", "reach_step", "reach_ops", "tryFallBackKeep_ps", "crash_safe_reachable", "reachable_selfBan", "step_selfBan"],
     "monitors": ["C04"],
     "assumptions": ["process death = the process stops between two of its file-system calls, or half-way through a write; every completed call is durable and ordered (no fsync in the code: loss or reordering of completed writes by the kernel / file system below is outside the model)",
                     "a state file that is being rewritten is unreadable (empty or cut short) until the write completes: serde_json rejects every proper prefix of the documents involved",
                     "the next launch passes the same release version as the interrupted one (any other version discards the state by C08)",
-                    "single I/O error, execution continues (second sentence): the fault is a failing state-file write (file untouched or cut short; the section stops anywhere later or runs on), a failing artifact operation (patches/ left in ANY state; the section's saves stop anywhere) or a failing step of the release-change reset; read errors are not modelled; for a failed artifact operation the VALUES a section saves are assumed not to depend on the failure (exercised by the eio runs, not proved)",
+                    "single I/O error, execution continues (second sentence): the fault is a failing state-file write (file untouched or cut short; the section stops anywhere later or runs on), a failing artifact operation (patches/ left in ANY state; the section's saves stop anywhere) or a failing step of the release-change reset; read errors are not modelled; that the VALUES a section saves do not depend on whether its removals of artifacts succeeded is proved for the fallback, the only place that decides after removing (tryFallBackKeep_ps); add_patch gives up before saving when placing the file fails (read off the code, exercised by the eio runs)",
                     "the theorem's process runs ANY sequence of the library's critical sections (a superset of every call sequence, reach_step); which section a real call runs after a failed one is therefore not modelled and need not be"],
 }
 
